@@ -1,3 +1,4 @@
+import Perp.Model.U128
 /-
   Line protocol helpers: `KIND key=value key=value ...` (flat tokens; no JSON).
   Lists inside a value use `,` `;` `|` separators chosen per field (see each decoder).
@@ -78,5 +79,11 @@ def Acc.report (a : Acc) (kind : String) (prop : String) (what : String) (line :
   let a := { a with classes := classes, out := if cnt < 12 && a.out.size < 5000 then a.out.push msg else a.out }
   if kind == "DISAGREE" then { a with disagree := a.disagree + 1 }
   else { a with specfail := a.specfail + 1 }
+
+/-- short name of a model error (coverage tags) -/
+def errTagOf (e : Perp.Err) : String :=
+  match e with
+  | .overflow => "overflow" | .divZero => "divzero" | .panic => "panic" | .unauthorized => "unauthorized"
+  | .guard c => s!"guard{c}" | .subcall c => s!"subcall{c}"
 
 end Driver
